@@ -324,6 +324,112 @@ pub fn lr1_not_lalr_family(rng: &mut Rng) -> (Cfg, Vec<bool>) {
     (cfg, vec![true, rng.chance(0.5), rng.chance(0.5)])
 }
 
+/// Shared phrases in several left contexts with different continuations:
+/// `Start -> p_i X_i [q_i]; X_i -> P_j [t] | ...; P_j -> short terminal strings with common prefixes`.
+/// This is the family in which LR(1) states with equal or nested cores meet, i.e. where
+/// state merging, core comparison and lookahead propagation decide the outcome.
+pub fn context_cfg(rng: &mut Rng) -> (Cfg, Vec<bool>) {
+    let k = rng.range(2, 3); // contexts
+    let n_phr = rng.range(2, 3); // shared phrases
+    let alpha = rng.range(2, 3); // phrase alphabet
+    let n_tail = rng.range(1, 3); // continuation terminals
+    // terminals: [0..k) context openers, [k..k+alpha) phrase letters, then tails, then closers
+    let t_open = 0;
+    let t_alpha = k;
+    let t_tail = k + alpha;
+    let t_close = t_tail + n_tail;
+    let use_close = rng.chance(0.4);
+    let nt = t_close + if use_close { k } else { 0 };
+    // nonterminals: 0 = Start, 1..=k contexts, then phrases
+    let nn = 1 + k + n_phr;
+    let mut rules = vec![];
+    for i in 0..k {
+        let mut rhs = vec![Sym::T(t_open + i), Sym::N(1 + i)];
+        if use_close {
+            rhs.push(Sym::T(t_close + if rng.chance(0.5) { i } else { (i + 1) % k }));
+        }
+        rules.push(Rule { lhs: 0, rhs });
+    }
+    for i in 0..k {
+        let n_alts = rng.range(1, 3);
+        let mut seen: Vec<Vec<Sym>> = vec![];
+        for _ in 0..n_alts {
+            let mut rhs = vec![Sym::N(1 + k + rng.below(n_phr))];
+            if rng.chance(0.6) {
+                rhs.push(Sym::T(t_tail + rng.below(n_tail)));
+            }
+            if rng.chance(0.15) {
+                rhs.insert(0, Sym::T(t_alpha + rng.below(alpha)));
+            }
+            if !seen.contains(&rhs) {
+                seen.push(rhs.clone());
+                rules.push(Rule { lhs: 1 + i, rhs });
+            }
+        }
+    }
+    let mut phrases: Vec<Vec<Sym>> = vec![];
+    for j in 0..n_phr {
+        let n_alts = if rng.chance(0.3) { 2 } else { 1 };
+        let mut seen: Vec<Vec<Sym>> = vec![];
+        for _ in 0..n_alts {
+            // share a prefix with an earlier phrase most of the time
+            let nonempty: Vec<&Vec<Sym>> = phrases.iter().filter(|p| !p.is_empty()).collect();
+            let mut rhs: Vec<Sym> = if !nonempty.is_empty() && rng.chance(0.7) {
+                let p = (*rng.pick(&nonempty)).clone();
+                let keep = rng.range(1, p.len());
+                p[..keep].to_vec()
+            } else {
+                vec![]
+            };
+            for _ in 0..rng.range(if rhs.is_empty() { 1 } else { 0 }, 2) {
+                rhs.push(Sym::T(t_alpha + rng.below(alpha)));
+            }
+            if rng.chance(0.1) {
+                rhs.clear(); // a nullable phrase
+            }
+            if !seen.contains(&rhs) {
+                seen.push(rhs.clone());
+                phrases.push(rhs.clone());
+                rules.push(Rule { lhs: 1 + k + j, rhs });
+            }
+        }
+    }
+    let force = (0..nn).map(|_| rng.chance(0.4)).collect();
+    (Cfg { nn, nt, rules, start: 0 }, force)
+}
+
+/// Right-nested recursion through several levels with closers introduced at different depths:
+/// `B -> x C ; C -> a | B z` and relatives (self-loops in the automaton that add lookaheads late).
+pub fn nested_cfg(rng: &mut Rng) -> (Cfg, Vec<bool>) {
+    let depth = rng.range(2, 3);
+    let nt = 2 + depth + rng.range(0, 2);
+    let mut rules = vec![];
+    // N0 -> t0 N1 ; N1 -> leaf | N0 closer | ... ; optional extra levels
+    for d in 0..depth {
+        let next = (d + 1) % depth;
+        let opener = Sym::T(d);
+        match rng.below(3) {
+            0 => rules.push(Rule { lhs: d, rhs: vec![opener, Sym::N(next)] }),
+            1 => {
+                rules.push(Rule { lhs: d, rhs: vec![opener, Sym::N(next)] });
+                rules.push(Rule { lhs: d, rhs: vec![Sym::T(depth)] });
+            }
+            _ => {
+                rules.push(Rule { lhs: d, rhs: vec![Sym::T(depth)] });
+                rules.push(Rule { lhs: d, rhs: vec![Sym::N(next), Sym::T(depth + 1 + rng.below(nt - depth - 1))] });
+            }
+        }
+    }
+    // make sure something terminates
+    if !rules.iter().any(|r| r.rhs.iter().all(|s| matches!(s, Sym::T(_)))) {
+        rules.push(Rule { lhs: depth - 1, rhs: vec![Sym::T(depth)] });
+    }
+    rules.sort_by_key(|r| r.lhs);
+    rules.dedup();
+    let force = (0..depth).map(|_| rng.chance(0.5)).collect();
+    (Cfg { nn: depth, nt, rules, start: 0 }, force)
+}
+
 /// Embed `inner` into a random context: wrap its start symbol in a bracket,
 /// a list or a sequence with fresh terminals.
 pub fn embed(rng: &mut Rng, inner: &Cfg, inner_force: &[bool]) -> (Cfg, Vec<bool>) {
@@ -378,6 +484,8 @@ pub enum Source {
     RandomUnreduced,
     Structured,
     Lr1NotLalrFamily,
+    SharedContexts,
+    Nested,
     Enumerated,
 }
 
@@ -390,6 +498,8 @@ impl Source {
             Source::RandomUnreduced => "random-unreduced",
             Source::Structured => "structured",
             Source::Lr1NotLalrFamily => "lr1-not-lalr-family",
+            Source::SharedContexts => "shared-contexts",
+            Source::Nested => "nested-recursion",
             Source::Enumerated => "enumerated",
         }
     }
@@ -401,7 +511,15 @@ pub fn grammar_for_case(rng: &mut Rng, index: u64) -> (Source, Cfg, Vec<bool>) {
         let (cfg, _, _, force) = cfg_from_text(CORPUS[index as usize].1);
         return (Source::Corpus, cfg, force);
     }
-    match rng.below(20) {
+    match rng.below(24) {
+        20..=22 => {
+            let (c, f) = context_cfg(rng);
+            (Source::SharedContexts, c, f)
+        }
+        23 => {
+            let (c, f) = nested_cfg(rng);
+            (Source::Nested, c, f)
+        }
         0..=2 => {
             let (cfg, _, _, force) = cfg_from_text(rng.pick(CORPUS).1);
             let (c, f) = embed(rng, &cfg, &force);
